@@ -307,6 +307,13 @@ example : chooseHost [] (envEx 1 3) = some hB1 := by decide          -- r·T = 2
 example : chooseHost [[120]] (envEx 1 2) = none := by decide
 example : Spec.eligible [[120]] esEx = [] := by decide
 example : filterAndChooseIdx (fun h => h.scheme == sA) (envEx 7 8 0) = some 2 := by decide
+/-- hypotheses and right-hand side of `c19_choice_interval_host` for `hA1` under `envEx 7 8`:
+it is visited last, 3 of the 4 units of https weight come before it, and 3/4 < 7/8 ≤ 4/4 -/
+example : (envEx 7 8 0).it2 = [(hB1, 2), (hA2, 3)] ++ (hA1, 1) :: [] := rfl
+example : ∀ e ∈ [(hB1, 2), (hA2, 3)] ++ ([] : List Entry), e.1 ≠ hA1 := by decide
+example : 8 * Spec.weightOf (fun h => h.scheme == sA) [(hB1, 2), (hA2, 3)] < 7 * Spec.weightOf (fun h => h.scheme == sA) esEx ∧
+    7 * Spec.weightOf (fun h => h.scheme == sA) esEx ≤ 8 * (Spec.weightOf (fun h => h.scheme == sA) [(hB1, 2), (hA2, 3)] + 1) := by decide
+example : filterAndChooseHost (fun h => h.scheme == sA) (envEx 7 8 0) = some hA1 := by decide
 /-- the zero-weight edge is reachable only at `r = 0` -/
 example : chooseHost [] (fun _ => ⟨[(hA1, 0), (hB1, 1)], [(hA1, 0), (hB1, 1)], 0, 1⟩) = some hA1 := by decide
 example : chooseHost [] (fun _ => ⟨[(hA1, 0), (hB1, 1)], [(hA1, 0), (hB1, 1)], 1, 1000⟩) = some hB1 := by decide
